@@ -50,6 +50,17 @@ def run(tier):
         rep.part('larger fields (%d athletes, %d regular heights + a closing one, %s reduced cards, %d per signature)' % (n, R, tot['reduced_cards'], per), wall_s=round(time.time() - t0, 1), **tot)
         for sig, hist, msg in viol:
             rep.add_violation(Violation(sig, dict(bounds=[n, R + 1, 1], history=hjmc.fmt_hist(hist)), msg))
+    # many heights: pairs of long cards (up to 14 failures before the best height) plus an also-ran
+    t0 = time.time()
+    R9 = 9 if tier == 'quick' else 11
+    lc = hjmc.long_cards(R9)
+    ar = [tuple(['o', 'xxx'] + [''] * (R9 - 2))]
+    tot, viol = hjmc.placing_enumerate(2, R9, cards=lc, also_ran=ar)
+    for k in dt:
+        dt[k] += tot[k]
+    rep.part('many heights (%d): pairs of %d long cards + an also-ran' % (R9, len(lc)), wall_s=round(time.time() - t0, 1), **tot)
+    for sig, hist, msg in viol:
+        rep.add_violation(Violation(sig, dict(bounds=[3, R9 + 1, 1], history=hjmc.fmt_hist(hist)), msg))
     # the tie-focused enumeration once more with the heights passed as binary floats / two-place Decimals at 1 cm steps
     for (n, R, J), codec in ([((3, 2, 2), 'float-cm')] if tier == 'quick' else [((3, 2, 2), 'float-cm'), ((3, 2, 2), 'decimal-cm'), ((2, 3, 2), 'float-cm')]):
         t0 = time.time()
